@@ -3,12 +3,13 @@
 
   The scheduler's stack is `c.A.stack` (bottom … top). The ideal stack and its operations are in
   `Spec/SchedSpec.lean` (`Spec.Stack`, `Spec.Op`); `c.stackOp` says which operation, if any, the next
-  instruction of `c` is. The trace records `.stackOp name newStack` for every operation, `.refresh e`
+  instruction of `c` is (`close_screen(closed_from)` is the operation `.close frm`, `frm` the source of
+  the request). The trace records `.stackOp name newStack` for every operation, `.refresh e`
   when the scheduler is about to call `refresh` of entry `e`, `.show e` when it is about to draw it.
   `StepTo P c c'` is one machine step (continuing or ending the run), `Trans` adds the deliveries of
   the reader thread.
 -/
-import Simpleline.Lemmas.SchedExamples
+import Simpleline.Lemmas.CloseRefused
 
 namespace Simpleline
 
@@ -22,7 +23,9 @@ discarding of a screen whose `setup` failed — the new stack is exactly what th
 (push on top; schedule at the bottom; replace substitutes the top and keeps its modality; close and
 discard remove the top), a new entry gets the next unused identity, and exactly one
 `.stackOp op.name newStack` event is traced. An operation the ideal stack refuses (close / replace /
-discard on the empty stack) changes nothing. -/
+discard on the empty stack; a close requested on behalf of a screen other than the one on top,
+`Spec.Stack.close`) changes nothing: in particular `close_screen` checks `closed_from` before it pops
+(see also `C04_refused_close_keeps_stack`). -/
 theorem C04_ops (P : Prog) (c c' : Cfg) (h : StepTo P c c') :
     match c.stackOp with
     | none => c'.A.stack = c.A.stack ∧ c'.A.nextEid = c.A.nextEid ∧ (newTr c c').filter Tr.isStackOp = []
@@ -167,6 +170,29 @@ theorem C04_empty_refused (P : Prog) (c : Cfg) (rest : List Instr) (hs : c.A.sta
     step P c = ({ c with code := rest } : Cfg).raise .err :=
   step_empty_refused P c rest hs hc
 
+/-- **A close request for a screen that is not on top is refused before anything is popped.** For
+every program and every configuration (reachable or not): if the next instruction is
+`close_screen(closed_from = src)` (a `CloseScreenSignal` of source `src` being handled) and the screen
+on top of the stack is not `src`, the step is exactly "raise `RenderUnexpectedError`" with nothing done
+before — and whatever configuration it leads to (the exception caught by the nearest `except Exception`
+scope, or the run ended by it), the scheduler's whole state is as before: the same stack (the top entry
+still there), the same screen records; no callback was invoked (nothing logged: in particular no
+`closed()`), no stack operation / refresh / draw was traced; the only thing the trace may have gained is
+the one exception signal enqueued by the scope that caught the exception; and the code is a suffix of
+what was pending behind the refused call. -/
+theorem C04_refused_close_keeps_stack (P : Prog) (c : Cfg) (src : Src) (e : Entry) (rest : List Instr)
+    (hc : c.code = .closeScreen (some src) :: rest) (he : c.A.stack.getLast? = some e) (hne : src ≠ .scr e.screen) :
+    step P c = ({ c with code := rest } : Cfg).raise .err ∧
+    ∀ c', StepTo P c c' →
+      c'.A.stack = c.A.stack ∧ c'.A = c.A ∧ newLog c c' = [] ∧
+      (newTr c c').length ≤ 1 ∧ (∀ t ∈ newTr c c', ∃ s, t.isExcFrom s = true) ∧
+      (newTr c c').filter Tr.isSched = [] ∧ c'.code <:+ rest := by
+  refine ⟨step_close_refused P c src e rest hc he hne, fun c' h => ?_⟩
+  obtain ⟨hA, hlog, hcode, evs, htr, hlen, hev⟩ := close_refused_effect hc he hne h
+  rw [newTr_of_append htr]
+  refine ⟨by rw [hA], hA, newLog_of_append (evs := []) hlog, hlen, fun t ht => isExcEnq_iff_from.1 (hev t ht), ?_, hcode⟩
+  exact List.filter_eq_nil_iff.2 fun t ht => by simp [isExcEnq_not_sched (hev t ht)]
+
 /-- What raising `ExitMainLoop` means: the trace records `.exit`, everything up to the nearest
 `except ExitMainLoop` (the one of `run()`) is abandoned and execution continues behind it — or, if
 there is none (the application drives the loop itself), the run ends with that exception. -/
@@ -201,6 +227,28 @@ open Ex in
 /-- closing the only screen: the stack is empty, `ExitMainLoop` is raised and `run()` returns -/
 example : (runFuel P3 300 c3).2 = .returned ∧ (runFuel P3 300 c3).1.A.stack = [] ∧
     .exit ∈ (runFuel P3 300 c3).1.tr := by
+  decide +kernel
+
+open Ex in
+/-- Non-vacuity of `C04_refused_close_keeps_stack`: in `Ex.P10` a `CloseScreenSignal` of screen 2 is
+dispatched while the modal screen 1 is on top — after 51 steps `close_screen(closed_from = screen 2)` is
+the next instruction of a reachable configuration whose top entry is screen 1. -/
+example : ∃ c rest, Reach P10 c10 c ∧ c.code = .closeScreen (some (.scr 2)) :: rest ∧
+    c.A.stack.getLast? = some (e 1 1 true) ∧ Src.scr 2 ≠ .scr (e 1 1 true).screen := by
+  obtain ⟨rest, hc⟩ := headCloseFrom_spec (c := (runFuel P10 51 c10).1) (src := .scr 2) (by decide +kernel)
+  exact ⟨(runFuel P10 51 c10).1, rest, reach_runFuel _ .init, hc, by decide +kernel, by decide⟩
+
+open Ex in
+/-- … and the whole run: the request is refused, the modal screen stays on the stack and keeps being the
+screen shown, no `closed()` callback is invoked, no `close` operation is traced; the
+`RenderUnexpectedError` surfaces as one exception signal of the event loop, which the application's
+handler consumes (the run then waits for events). -/
+example : (runFuel P10 400 c10).2 = .blocked ∧ (runFuel P10 400 c10).1.A.stack = [e 0 0, e 1 1 true] ∧
+    sched (runFuel P10 400 c10).1 =
+      [.stackOp "schedule" [e 0 0], .refresh (e 0 0), .show (e 0 0), .stackOp "pushModal" [e 0 0, e 1 1 true],
+       .refresh (e 1 1 true), .show (e 1 1 true)] ∧
+    (cbs (runFuel P10 400 c10).1).filter Ev.isClosed = [] ∧
+    ((runFuel P10 400 c10).1.tr.filter (Tr.isExcFrom .loop)).length = 1 := by
   decide +kernel
 
 end Simpleline
